@@ -94,8 +94,8 @@ fn gen(seed: u64, idx: u64, _tier: Tier) -> Plan {
     if health && rng.chance(1, 2) {
         // two connects before the workers can possibly poll
         let t0 = *rng.pick(&[1u64, 30, 100, 400]);
-        plan.step(t0, Action::Health { id: 900 });
-        plan.step(t0 + 1, Action::Health { id: 901 });
+        plan.step(t0, Action::Health { id: 900, reset: false });
+        plan.step(t0 + 1, Action::Health { id: 901, reset: false });
     }
     let mut hid = 0;
     for _round in 0..3 {
@@ -105,8 +105,12 @@ fn gen(seed: u64, idx: u64, _tier: Tier) -> Plan {
         if health {
             let n = 1 + rng.below(4);
             let gap = *rng.pick(&[0u64, 0, 1, 50, 5_000]);
+            // one group in three has a connection the client resets at once (the server's write
+            // fails); whoever is queued behind it on the same listener must still be answered
+            let reset_at = if rng.chance(1, 3) { Some(rng.below(n)) } else { None };
+            let t_group = t + rng.below(200);
             for j in 0..n {
-                plan.step(t + rng.below(200) + j * gap, Action::Health { id: hid });
+                plan.step(if reset_at.is_some() { t_group + j * gap.min(1) } else { t + rng.below(200) + j * gap }, Action::Health { id: hid, reset: reset_at == Some(j) });
                 hid += 1;
             }
         }
@@ -225,6 +229,11 @@ fn check(plan: &Plan, out: &RunOut) -> CheckOut {
             let connect_seq = w.history.iter().find_map(|r| match &r.ev { dsim::Ev::TcpConnect { conn: cc, .. } if cc == c => Some(r.seq), _ => None }).unwrap_or(0);
             if conn.refused && listen_seq.map(|ls| connect_seq < ls).unwrap_or(true) {
                 co.probe("connect_before_listen");
+                continue;
+            }
+            if conn.peer_reset && !conn.refused {
+                // nothing can be written to a connection its client has reset
+                co.probe("health_connection_reset_by_client");
                 continue;
             }
             if conn.refused {
